@@ -1,6 +1,7 @@
 """Engine for C06 / C07 / C15: reference selection and refgroup tallies through
 the CLI (fakegit serving refs and gitconfig) against the RefOpts model."""
 import json
+import os
 import random
 import re as pyre
 
@@ -109,7 +110,8 @@ REFPOOL = [b"refs/heads/main", b"refs/heads/master", b"refs/heads/feature/x", b"
            b"refs/remotes/origin/main", b"refs/remotes/origin/HEAD", b"refs/remotes/up/x", b"refs/pull/1/head",
            b"refs/pull/1/merge", b"refs/changes/12/3412/1", b"refs/changes/1/2/3", b"refs/notes/commits", b"refs/stash",
            b"refs/stash/x", b"refs/foo", b"refs/foo/bar", b"refs/foobar", b"refs/a", b"refs/abc", b"refs/tags/refs/heads",
-           b"refs/heads/a", b"refs/tags/b", b"refs/heads/a$"]
+           b"refs/heads/a", b"refs/tags/b", b"refs/heads/a$", b"refs/heads/main\xc2\xa0", b"refs/tags/v1\xe3\x80\x80", b"refs/foo\xc2\x85",
+           b"refs/heads/\xe2\x80\xa8a"]
 
 
 def gen_refs(rng):
@@ -295,7 +297,8 @@ def gen_options(rng, defs, refs, maxlen=4):
                 pat = rng.choice([name + b"/", name + b"/", b"/" + name, name.replace(b"/", b"//", 1), name + b"//"])
             if pat.startswith(b"@") or (pat.startswith(b"/") and pat.endswith(b"/") and len(pat) >= 2):
                 continue
-            cli += [opt, pat.decode("latin1")] if rng.random() < 0.5 else [opt + "=" + pat.decode("latin1")]
+            # (bytes outside ASCII reach the command line unchanged: surrogateescape round-trips them)
+            cli += [opt, os.fsdecode(pat)] if rng.random() < 0.5 else [opt + "=" + os.fsdecode(pat)]
             toks.append(sign + "p:" + vlib.hx(pat))
         elif k < 0.8:
             e = gen_re_refs(rng)
